@@ -42,6 +42,7 @@ type subEvent struct {
 	tag  string
 	v    int
 	list []interface{}
+	badN bool // the Int field n holds something that is no Int: the field is null in the message and AddEvent reports it
 }
 
 func (e *subEvent) Resolve(field *ggql.Field, args map[string]interface{}) (interface{}, error) {
@@ -49,6 +50,9 @@ func (e *subEvent) Resolve(field *ggql.Field, args map[string]interface{}) (inte
 	case "id":
 		return e.id, nil
 	case "n":
+		if e.badN {
+			return "not a number", nil
+		}
 		return e.n, nil
 	case "tag":
 		return e.tag, nil
@@ -77,7 +81,12 @@ func (e *subEvent) node() *model.Graph {
 	root := &model.Node{ID: 0, Type: "__root", F: map[string]interface{}{}}
 	q := &model.Node{ID: 1, Type: "Query", F: map[string]interface{}{}}
 	in := &model.Node{ID: 3, Type: "Inner", F: map[string]interface{}{"v": e.v, "w": e.tag + "-w"}}
-	ev := &model.Node{ID: 2, Type: "Event", F: map[string]interface{}{"id": e.id, "n": e.n, "tag": e.tag, "inner": in, "list": model.VList(e.list)}}
+	ev := &model.Node{ID: 2, Type: "Event", F: map[string]interface{}{"id": e.id, "n": func() interface{} {
+		if e.badN {
+			return "not a number"
+		}
+		return e.n
+	}(), "tag": e.tag, "inner": in, "list": model.VList(e.list)}}
 	root.F["query"] = q
 	q.F["ev"] = ev
 	g.Root, g.Nodes = root, []*model.Node{root, q, ev, in}
@@ -436,6 +445,7 @@ func runC19(c *run.Ctx) {
 				evSeq++
 				ev := &subEvent{uid: evSeq, id: fmt.Sprintf("e%d", evSeq), n: r.Intn(100), tag: fmt.Sprintf("t%d", r.Intn(10)), v: r.Intn(9), list: []interface{}{r.Intn(5), nil, r.Intn(5)}}
 				current = evSeq
+				ev.badN = r.Intn(6) == 0
 				var payload interface{} = ev
 				evs := []*subEvent{ev}
 				if r.Intn(4) == 0 {
@@ -454,7 +464,7 @@ func runC19(c *run.Ctx) {
 					payload = sl
 					hist = append(hist, fmt.Sprintf("publish topic=%s event=slice of %d", topic, len(sl)))
 				} else {
-					hist = append(hist, fmt.Sprintf("publish topic=%s event=%s", topic, ev.id))
+					hist = append(hist, fmt.Sprintf("publish topic=%s event=%s n-is-no-Int=%v", topic, ev.id, ev.badN))
 				}
 				var cnt int
 				var err error
@@ -467,6 +477,7 @@ func runC19(c *run.Ctx) {
 				// model
 				var want []delivery
 				anyFail := false
+				fieldErr := false // some receiving subscriber selected the field that can not be resolved for this event
 				for _, e := range entries {
 					if e.live && e.h.Match(topic) {
 						msg := expectedMessage(ms, e.h.sels, ev)
@@ -480,6 +491,13 @@ func runC19(c *run.Ctx) {
 						d := delivery{Sub: e.h.sid, Event: evSeq, Msg: msg, Fail: e.h.failOn[e.expected]}
 						e.expected++
 						want = append(want, d)
+						if ev.badN && !strings.HasPrefix(topic, "B:") {
+							for _, sel := range e.h.sels {
+								if f, isF := sel.(*model.Field); isF && f.Name == "n" {
+									fieldErr = true
+								}
+							}
+						}
 						if d.Fail {
 							e.live = false
 							anyFail = true
@@ -495,8 +513,8 @@ func runC19(c *run.Ctx) {
 					bad = true
 					break
 				}
-				if (err != nil) != anyFail {
-					fail(fmt.Sprintf("publish error = %v but a failing delivery was expected = %v", err, anyFail))
+				if (err != nil) != (anyFail || fieldErr) {
+					fail(fmt.Sprintf("publish error = %v but a failing delivery was expected = %v and a field error = %v", err, anyFail, fieldErr))
 					bad = true
 					break
 				}
